@@ -22,12 +22,15 @@ KNOWN_OVERFLOW = ("recovery panics: the u16 repair cost overflows (checked_add(.
                   "is found below cost 65535 (large token costs)")
 KNOWN_NOPROGRESS = ("errors do not progress on a conflict-resolved table: the applied repair sequence is not a valid repair "
                     "(C05 finding: search from a stack reduced under the real lookahead)")
+KNOWN_SEARCH_LOOP = ("recovery loops: the search's lr_cactus enters a reduction cycle through a conflict-resolved table cell "
+                     "(grammar has no derivation cycle)")
 KNOWN_LOOP = "parse loops: epsilon reduction cycle through a conflict-resolved table cell (grammar has no derivation cycle)"
 
 
 def check_input(ctx, r, inp):
     base = {"grammar": r.src, "costs": r.costs, "input": r.names(inp.toks), "input_tidxs": inp.toks,
-            "impl_errors": [{"lexeme": e[0], "state": e[1], "n_repairs": e[2]} for e in inp.errors],
+            "impl_errors": [{"lexeme": e[0], "state": e[1], "n_repairs": e[2]} for e in inp.errors[:12]],
+            "n_impl_errors": len(inp.errors),
             "impl_value": (inp.value or "")[:300], "conflicts": r.conflicts}
     m = inp.model or {}
     n, N = len(inp.toks), 3          # the property's N (r.PN is checked to be 3)
@@ -80,10 +83,13 @@ def check_input(ctx, r, inp):
     if m and m.get("mirror") == "done":
         impl_errs = ["%d:%d:%d" % (e[0], e[1], 1 if e[3] else 0) for e in inp.errors]
         merrs = [x for x in m.get("merrs", "").split(",") if x]
-        if merrs != impl_errs or m.get("vcmp") == "diff":
+        trunc = m.get("trunc") == "1"          # the mirror replayed only the first errors (model cap)
+        if trunc:
+            ctx.count("inputs_with_more_errors_than_model_cap(prefix compared)")
+        if (impl_errs[:len(merrs)] != merrs) if trunc else (merrs != impl_errs or m.get("vcmp") == "diff"):
             d = dict(base)
             d.update({"what": "(value, errors) differ from the mirror driver replayed with the implementation's own first sequences",
-                      "mirror_errors(pos:state:repaired)": merrs, "value_comparison": m.get("vcmp"),
+                      "mirror_errors(pos:state:repaired)": merrs[:40], "value_comparison": m.get("vcmp"),
                       "broken_correspondence": "Repair.Semantics.run_recover vs Parser::lr (CPCT+)"})
             ctx.count("failing_known_class" if known else "failing_ALARM")
             ctx.violation(d, known_key=KNOWN_NOPROGRESS if known else None, no_input=not why)
@@ -159,8 +165,16 @@ def run(ctx):
                      "model_plain_interpreter": (inp.model or {}).get("plain"),
                      "epsilon_reduce_cycles(token,states)": [(r.tname(tk), c) for tk, c in cycles],
                      "grammar_has_derivation_cycle": False}
-                known = r.conflicts is not None and (inp.model or {}).get("plain") == "fuel" and bool(cycles)
-                ctx.violation(d, known_key=KNOWN_LOOP if known else None)
+                mm = inp.model or {}
+                d["model_search_probe(loops from the first error configuration)"] = mm.get("probe")
+                # known classes (tables with reported conflicts only): the plain LR loop itself never ends (the extracted
+                # interpreter runs out of fuel on the same input), or the search's lr_cactus does (the mirror's
+                # Insert / Delete*-Shift from the first error configuration runs out of fuel)
+                known_plain = r.conflicts is not None and mm.get("plain") == "fuel"
+                known_search = r.conflicts is not None and mm.get("plain", "").startswith("rej:") and bool(mm.get("probe"))
+                known = known_plain or known_search
+                ctx.count("hang_known_plain_loop" if known_plain else "hang_known_search_loop" if known_search else "hang_ALARM")
+                ctx.violation(d, known_key=(KNOWN_LOOP if known_plain else KNOWN_SEARCH_LOOP) if known else None)
                 ctx.oblige(False if not known else True)
                 ctx.case(key, True)
                 continue
@@ -196,4 +210,9 @@ def run(ctx):
                         "so a budget timeout is never an alarm" % repair.BUDGET_MS,
                         "termination of a run of reductions (inner segment) is an explicit hypothesis of driver_terminates; on the "
                         "implementation it is observed under the watchdog",
-                        "the lexer never produces the eof token; token ids in range (ReplayLexer)"]
+                        "the lexer never produces the eof token; token ids in range (ReplayLexer)",
+                        "an input that falls into a known-finding class (KNOWN_* in this file: tables with reported/resolved conflicts "
+                        "only, each confirmed by the extracted model: interpreter out of fuel / search-move probe out of fuel / applied "
+                        "sequence invalid / returns with unit costs) is reported through known_key and counted as a discharged "
+                        "obligation; everything else alarms",
+                        "model cap: at most 300 errors per input are replayed by the mirror (prefix compared)"]
